@@ -43,8 +43,16 @@ func (r *dynRes) key(name string) Key {
 
 func (r *dynRes) gr() schema.GroupResource { return r.gvr.GroupResource() }
 
-func injected(verb string) error {
-	return apierrors.NewInternalError(fmt.Errorf("injected fault (%s)", verb))
+// injected builds the error of an injected fault with the configured HTTP status (500 unless FailCode says 403 or 422).
+func (c *Cluster) injected(verb string) error {
+	msg := fmt.Sprintf("injected fault (%s)", verb)
+	switch c.FailCode {
+	case 403:
+		return &apierrors.StatusError{ErrStatus: metav1.Status{Status: metav1.StatusFailure, Code: 403, Reason: metav1.StatusReasonForbidden, Message: msg}}
+	case 422:
+		return &apierrors.StatusError{ErrStatus: metav1.Status{Status: metav1.StatusFailure, Code: 422, Reason: metav1.StatusReasonInvalid, Message: msg}}
+	}
+	return apierrors.NewInternalError(fmt.Errorf("%s", msg))
 }
 
 func hasDry(dr []string) bool {
@@ -65,7 +73,7 @@ func (r *dynRes) Create(ctx context.Context, obj *unstructured.Unstructured, o m
 	defer r.c.end(req)
 	if req.Rejected {
 		req.Result = "error"
-		return nil, injected("create")
+		return nil, r.c.injected("create")
 	}
 	res, st := r.c.doCreate(k, obj, req.DryRun)
 	req.Result = st
@@ -81,7 +89,7 @@ func (r *dynRes) Update(ctx context.Context, obj *unstructured.Unstructured, o m
 	defer r.c.end(req)
 	if req.Rejected {
 		req.Result = "error"
-		return nil, injected("update")
+		return nil, r.c.injected("update")
 	}
 	res, st := r.c.doReplace(k, obj, req.DryRun)
 	req.Result = st
@@ -108,7 +116,7 @@ func (r *dynRes) Delete(ctx context.Context, name string, o metav1.DeleteOptions
 	defer r.c.end(req)
 	if req.Rejected {
 		req.Result = "error"
-		return injected("delete")
+		return r.c.injected("delete")
 	}
 	if req.DryRun {
 		req.Result = "ok"
@@ -135,7 +143,7 @@ func (r *dynRes) Get(ctx context.Context, name string, o metav1.GetOptions, sub 
 	defer r.c.end(req)
 	if req.Rejected {
 		req.Result = "error"
-		return nil, injected("get")
+		return nil, r.c.injected("get")
 	}
 	res, ok := r.c.doGet(k)
 	if !ok {
@@ -151,7 +159,7 @@ func (r *dynRes) List(ctx context.Context, o metav1.ListOptions) (*unstructured.
 	defer r.c.end(req)
 	if req.Rejected {
 		req.Result = "error"
-		return nil, injected("list")
+		return nil, r.c.injected("list")
 	}
 	var match func(*unstructured.Unstructured) bool
 	if o.LabelSelector != "" {
